@@ -20,11 +20,14 @@ type Case struct {
 	N      int      `json:"n"`      // statements in the file
 	K      int      `json:"k"`      // statements applied before the failure
 	Layout int      `json:"layout"` // 0: only file, 1: middle of three files
+	Mode   int      `json:"mode"`   // how the partial progress arose: 0 statement k+1 failed; 1 process died before statement k+1; 2 statement 1 failed, re-run, died before statement k+1
 	Edit   string   `json:"edit"`
 	New    []string `json:"new"` // statement list after the edit
 }
 
 var errInjected = errors.New("verif: injected failure")
+
+type died struct{}
 
 func old(n int) []string {
 	s := make([]string, n)
@@ -101,15 +104,45 @@ func eval(c Case) (problems []string, key string) {
 	oldS := old(c.N)
 	store := mighelp.NewStore()
 	var execs []string
-	failAt := oldS[c.K]
+	failAt, dieAt, dead := oldS[c.K], "<none>", false
+	if c.Mode != 0 {
+		failAt, dieAt = "<none>", oldS[c.K]
+	}
+	if c.Mode == 2 {
+		failAt = oldS[0]
+	}
 	drv := &mighelp.Driver{OnExec: func(q string) error {
 		q = strings.TrimSuffix(q, ";")
+		if dead {
+			return errInjected
+		}
+		if q == dieAt {
+			dead = true
+			panic(died{})
+		}
 		if q == failAt {
 			return errInjected
 		}
 		execs = append(execs, q)
 		return nil
 	}}
+	store.OnWrite = func(*migrate.Revision) (bool, error) {
+		if dead {
+			return false, errInjected
+		}
+		return true, nil
+	}
+	runDying := func(ex *migrate.Executor) (err error) {
+		defer func() {
+			if p := recover(); p != nil {
+				if _, ok := p.(died); !ok {
+					panic(p)
+				}
+				err = errors.New("died")
+			}
+		}()
+		return ex.ExecuteN(ctx, 0)
+	}
 	dir, err := mighelp.Dir(files(c, oldS, 0))
 	if err != nil {
 		return []string{"harness: " + err.Error()}, ""
@@ -118,9 +151,17 @@ func eval(c Case) (problems []string, key string) {
 	if err != nil {
 		return []string{"harness: " + err.Error()}, ""
 	}
-	if err := ex.ExecuteN(ctx, 0); err == nil {
+	if err := runDying(ex); err == nil {
 		return []string{"harness: first run did not fail"}, ""
 	}
+	if c.Mode == 2 {
+		failAt = "<none>"
+		ex, _ = migrate.NewExecutor(drv, dir, store)
+		if err := runDying(ex); err == nil || !dead {
+			return []string{"harness: second preparatory run did not die"}, ""
+		}
+	}
+	dead, dieAt = false, "<none>"
 	before, ok := store.Revs["2"]
 	if !ok || before.Applied != c.K || before.Total != c.N {
 		return []string{fmt.Sprintf("harness: after the failing run revision is %s, want applied=%d total=%d", mighelp.RevString(before), c.K, c.N)}, ""
@@ -229,17 +270,19 @@ func cases(tier string) []Case {
 	for n := 2; n <= maxN; n++ {
 		for k := 1; k < n; k++ {
 			for layout := 0; layout <= 1; layout++ {
-				gen := 0
-				first := singleEdits(old(n), &gen)
-				for _, e := range first {
-					cs = append(cs, Case{n, k, layout, e.name, e.out})
-					if tier == "thorough" && n <= 4 {
-						for _, e2 := range singleEdits(e.out, &gen) {
-							cs = append(cs, Case{n, k, layout, e.name + "+" + e2.name, e2.out})
+				for mode := 0; mode <= 2; mode++ {
+					gen := 0
+					first := singleEdits(old(n), &gen)
+					for _, e := range first {
+						cs = append(cs, Case{n, k, layout, mode, e.name, e.out})
+						if tier == "thorough" && n <= 4 {
+							for _, e2 := range singleEdits(e.out, &gen) {
+								cs = append(cs, Case{n, k, layout, mode, e.name + "+" + e2.name, e2.out})
+							}
 						}
 					}
+					cs = append(cs, Case{n, k, layout, mode, "none", old(n)})
 				}
-				cs = append(cs, Case{n, k, layout, "none", old(n)})
 			}
 		}
 	}
@@ -247,7 +290,7 @@ func cases(tier string) []Case {
 }
 
 func Run(r *report.Run) {
-	r.Rule = "files of n<=5 distinct statements x progress k in 1..n-1 (revision produced by a real failing first run) x layout {only file, middle of 3 files} x every single edit (change/insert/delete/swap at every index, truncate to every length; thorough: every pair of edits for n<=4), re-hashed, then ExecuteN on the real Executor; non-trivial = case whose edit changes the statement list; distinct = (n,k,layout,new list)"
+	r.Rule = "files of n<=5 distinct statements x progress k in 1..n-1 x origin of the partial revision {statement k+1 failed; process died before statement k+1 (no error recorded); statement 1 failed, re-run, then died before statement k+1} (revision always produced by real runs) x layout {only file, middle of 3 files} x every single edit (change/insert/delete/swap at every index, truncate to every length; thorough: every pair of edits for n<=4), re-hashed, then ExecuteN on the real Executor; non-trivial = case whose edit changes the statement list; distinct = (n,k,layout,new list)"
 	r.Assumptions = []string{
 		"'history untouched' compares Applied, Total, PartialHashes, Error, ErrorStmt, Hash, Type; ExecutedAt/ExecutionTime/OperatorVersion are rewritten by design on every write",
 		"statements are distinct tokens; the recording driver never fails during the second run",
@@ -261,7 +304,7 @@ func Run(r *report.Run) {
 		res[i], keys[i] = eval(cs[i])
 	})
 	for i, c := range cs {
-		r.Case(fmt.Sprintf("%d|%d|%d|%v", c.N, c.K, c.Layout, c.New), c.Edit != "none")
+		r.Case(fmt.Sprintf("%d|%d|%d|%d|%v", c.N, c.K, c.Layout, c.Mode, c.New), c.Edit != "none")
 		kinds[strings.Split(c.Edit, "@")[0]]++
 		o := old(c.N)
 		if len(c.New) >= c.K && reflect.DeepEqual(c.New[:c.K], o[:c.K]) {
@@ -275,7 +318,7 @@ func Run(r *report.Run) {
 				r.Violate("", "NONDETERMINISTIC HARNESS", c)
 				continue
 			}
-			r.Violate(keys[i], fmt.Sprintf("n=%d k=%d layout=%d edit=%s new=%v: %s", c.N, c.K, c.Layout, c.Edit, c.New, strings.Join(res[i], " | ")), c)
+			r.Violate(keys[i], fmt.Sprintf("n=%d k=%d layout=%d mode=%d edit=%s new=%v: %s", c.N, c.K, c.Layout, c.Mode, c.Edit, c.New, strings.Join(res[i], " | ")), c)
 		}
 		if c.N == 3 && c.K == 2 && c.Layout == 0 && (strings.HasPrefix(c.Edit, "swap") || strings.HasPrefix(c.Edit, "truncate")) {
 			r.Sample(c)
